@@ -317,6 +317,55 @@ theorem rel_resized (dec : String → G) (hdec : DecOk dec) (rows cols : Nat) (e
   · show (if e.cur.col ≥ (cols : Int) then (cols : Int) - 1 else e.cur.col).toNat < cols
     split <;> omega
 
+/-- After a resize on EITHER screen (the display with the unknown grid, `C12Any.resizedDisplayP`): the
+    reference terminal with every cell `poison` (it accepts whatever the emulator shows there — on the
+    primary screen the reflowed old content — until the refresh frame has overwritten it). -/
+theorem rel_resizedP (dec : String → G) (hdec : DecOk dec) (rows cols : Nat) (e : Emu) (hi : Lemmas.Emu.EmuInv e rows cols)
+    (dm : Lemmas.Emu.Dim rows cols) :
+    Rel dec (resizedDisplayP cols rows e)
+      { T.init rows cols with
+        primary := List.replicate rows (List.replicate cols TCell.poison)
+        row := e.cur.row.toNat
+        col := (if e.cur.col ≥ (cols : Int) then (cols : Int) - 1 else e.cur.col).toNat
+        pw := decide (e.cur.col ≥ (cols : Int))
+        cursorVisible := e.mode.dectcem
+        cursorShape := e.cur.shape.toNat } := by
+  have h := C06Bridge.init_related dec hdec rows cols dm.r1 dm.c1
+  have := hi.rowLo; have := hi.rowHi; have := hi.colLo; have := hi.colHi; have := dm.c1
+  have rep : ∀ {α : Type} (n : Nat) (x y : α) (k : Nat), (List.replicate n x)[k]? = some y → y = x := by
+    intro α n x y k hk
+    rw [List.getElem?_replicate] at hk
+    split at hk
+    · exact (Option.some.inj hk).symm
+    · cases hk
+  refine ⟨h.rows, h.cols, h.onAlt, rfl, rfl, rfl, h.pen, h.link, rfl, rfl, ?_, ?_, h.top, h.bottom, h.bad, ?_⟩
+  · show e.cur.row.toNat < rows
+    omega
+  · show (if e.cur.col ≥ (cols : Int) then (cols : Int) - 1 else e.cur.col).toNat < cols
+    split <;> omega
+  · show Lemmas.C06Bridge.GridRel dec rows cols (poisonGrid cols rows) (List.replicate rows (List.replicate cols TCell.poison))
+    refine ⟨by simp [poisonGrid], by simp, ?_⟩
+    intro i dr hdr
+    have hdr' := rep _ _ _ _ hdr
+    subst hdr'
+    have hi' : i < rows := by
+      rcases Nat.lt_or_ge i rows with h | h
+      · exact h
+      · simp only [poisonGrid] at hdr; rw [List.getElem?_eq_none (by simpa using h)] at hdr; cases hdr
+    refine ⟨List.replicate cols TCell.poison, by rw [List.getElem?_replicate]; simp [hi'], by simp, ?_, ?_⟩
+    · refine ⟨?_, ?_, ?_⟩
+      · intro j g w st lp lk hj; have := rep _ _ _ _ hj; cases this
+      · intro j hj; have := rep _ _ _ _ hj; cases this
+      · intro j hj
+        unfold Lemmas.C06Bridge.wideD at hj
+        cases hc : (List.replicate cols DCell.poison)[j]? with
+        | none => rw [hc] at hj; cases hj
+        | some x => rw [hc] at hj; have := rep _ _ _ _ hc; subst this; cases hj
+    · refine ⟨by simp, ?_⟩
+      intro j d t hd' ht'
+      rw [rep _ _ _ _ hd', rep _ _ _ _ ht']
+      rfl
+
 /-- Non-vacuity of `DecOk` together with the other decoder hypotheses: the table decoder of the examples. -/
 example : DecOk C06Bridge.dec0 ∧ C06Bridge.dec0 "20" = [32] ∧ C06Bridge.dec0 "" = [] := ⟨C06Bridge.decOk0, by decide, by decide⟩
 
